@@ -142,15 +142,23 @@ def render_body(b, cmap, bound=lambda k: str(k)):
     return F.to_text(go(b), bound=bound)
 
 
+def ia_kw(case):
+    """Interface-aware semantics of a case (`case["ia"] = [semantics name, {variable: "input" | "output"}]`)."""
+    if not case.get("ia"):
+        return {}
+    from .props import c06
+    return {"semantics": c06.SEMS[case["ia"][0]], "io": dict(case["ia"][1])}
+
+
 def build(case, kind, modular=True, only=None):
     """Construct and parse the specification object. `only`: name of a single assertion to build stand-alone (inlined)."""
     if only is not None:
         text = "%s = %s" % (only, F.to_text(case["inl"][only], bound=bound_fn(case)))
-        spec = impl.make_spec(kind, text, case["vars"], extra_decl=[only] if only != "out" else [])
+        spec = impl.make_spec(kind, text, case["vars"], extra_decl=[only] if only != "out" else [], **ia_kw(case))
         spec.parse()
         return spec
     if not modular:
-        spec = impl.make_spec(kind, "out = " + F.to_text(case["f"], bound=bound_fn(case)), case["vars"])
+        spec = impl.make_spec(kind, "out = " + F.to_text(case["f"], bound=bound_fn(case)), case["vars"], **ia_kw(case))
         spec.parse()
         return spec
     defs = case["defs"]
@@ -165,9 +173,10 @@ def build(case, kind, modular=True, only=None):
         lines = [l + {0: "", 1: " // " + nm_, 2: " /* " + nm_ + " */", 3: "   // x >= 1; y = 2;"}[k if j < len(lines) - 1 else 0]
                  for j, (l, (nm_, _), k) in enumerate(zip(lines, defs, cm))]
     if case["style"] == "text":
-        spec = impl.make_spec(kind, "\n".join(lines), case["vars"], extra_decl=names, consts=list(case["consts"]) + bconsts)
+        spec = impl.make_spec(kind, "\n".join(lines), case["vars"], extra_decl=names, consts=list(case["consts"]) + bconsts, **ia_kw(case))
     else:
-        spec = impl.make_spec(kind, lines[-1], case["vars"], extra_decl=names, consts=list(case["consts"]) + bconsts, sub_specs=lines[:-1])
+        spec = impl.make_spec(kind, lines[-1], case["vars"], extra_decl=names, consts=list(case["consts"]) + bconsts, sub_specs=lines[:-1],
+                              **ia_kw(case))
     spec.parse()
     return spec
 
@@ -225,7 +234,7 @@ def run_discrete(case, monitor, modular=True, only=None, read_names=False, pre=N
 def rep_of(case):
     return {"monitor": case["monitor"], "defs": [[nm, F.to_proto(b)] for nm, b in case["defs"]], "consts": case["consts"],
             "cmap": [[k, v] for k, v in case["cmap"].items()], "style": case["style"], "n": case["n"], "data": case["data"], "unit_mode": case.get("unit_mode"), "comments": case.get("comments"),
-            "spec": spec_text(case), "inlined": "out = " + F.to_text(case["f"])}
+            "ia": case.get("ia"), "spec": spec_text(case), "inlined": "out = " + F.to_text(case["f"])}
 
 
 def case_of_rep(obj):
@@ -234,7 +243,7 @@ def case_of_rep(obj):
     allvars = sorted({v for nm in inl for v in F.variables(inl[nm])})
     return {"monitor": obj["monitor"], "defs": defs, "inl": inl, "f": inl["out"], "consts": [tuple(c) for c in obj["consts"]],
             "cmap": {float(k): v for k, v in obj["cmap"]}, "style": obj["style"], "n": obj["n"], "vars": allvars or ["a"],
-            "data": {k: [float(x) for x in v] for k, v in obj["data"].items()}, "unit_mode": obj.get("unit_mode"), "comments": obj.get("comments")}
+            "data": {k: [float(x) for x in v] for k, v in obj["data"].items()}, "unit_mode": obj.get("unit_mode"), "comments": obj.get("comments"), "ia": obj.get("ia")}
 
 
 def model_prog(cases):
